@@ -138,12 +138,13 @@ Init0 == [cnt |-> 0, rec |-> EmptyF, win |-> [first |-> 1000000, mod |-> 1]]
 Init == st = Init0 /\ ev = NoEv /\ gh = GhostInit /\ hist = <<>>
 
 Step(e) ==
-  LET r == Apply(st, e)
-      e2 == [e EXCEPT !.ok = r.ok, !.panic = r.panic, !.ids = r.ids]
-  IN /\ st' = r.st
-     /\ ev' = e2
-     /\ gh' = GhostStep(gh, st, e2, r.st)
-     /\ hist' = IF RecordHist THEN Append(hist, e2) ELSE hist
+  \* the singleton quantifier makes TLC evaluate Apply once per transition
+  \E r \in {Apply(st, e)} :
+    LET e2 == [e EXCEPT !.ok = r.ok, !.panic = r.panic, !.ids = r.ids] IN
+    /\ st' = r.st
+    /\ ev' = e2
+    /\ gh' = GhostStep(gh, st, e2, r.st)
+    /\ hist' = IF RecordHist THEN Append(hist, e2) ELSE hist
 
 SeqsUpTo(S, n) == UNION {[1..k -> S] : k \in 1..n}
 
